@@ -33,6 +33,8 @@ struct Chosen {
     expect: BTreeMap<String, String>,
     mem: u64,
     manual: bool,
+    /// the option rows the stored form of this configuration consists of
+    rows: std::collections::BTreeSet<String>,
 }
 
 fn plen(rng: &mut StdRng, class: &str) -> usize {
@@ -227,7 +229,28 @@ fn concretise(cfg: &Value, seed: u64) -> (KeyspaceCreateOptions, Chosen) {
     e.insert("is_kv_separated".into(), format!("{}", blob.is_some()));
     o = o.with_kv_separation(blob);
 
-    (o, Chosen { expect: e, mem, manual })
+    let mut rows: std::collections::BTreeSet<String> = [
+        "compaction_strategy", "data_block_compression_policy", "data_block_hash_ratio_policy",
+        "data_block_restart_interval_policy", "data_block_size_policy", "expect_point_read_hits",
+        "filter_block_partitioning_policy", "filter_block_pinning_policy", "filter_policy",
+        "index_block_compression_policy", "index_block_partitioning_policy", "index_block_pinning_policy",
+        "index_block_restart_interval_policy", "level_count", "manual_journal_persist", "max_memtable_size", "version",
+    ].iter().map(|s| s.to_string()).collect();
+    if cfg["strat"] == "leveled" {
+        for r in ["leveled_l0_threshold", "leveled_target_size", "leveled_level_ratio_policy"] {
+            rows.insert(r.into());
+        }
+    } else {
+        for r in ["fifo_limit", "fifo_ttl", "fifo_ttl_seconds"] {
+            rows.insert(r.into());
+        }
+    }
+    if cfg["blob"] != "none" {
+        for r in ["blob", "blob_age_cutoff", "blob_compression", "blob_file_target_size", "blob_separation_threshold", "blob_staleness_threshold"] {
+            rows.insert(r.into());
+        }
+    }
+    (o, Chosen { expect: e, mem, manual, rows })
 }
 
 /// The configuration in force, from the keyspace's own struct and from the tree it drives.
@@ -366,6 +389,47 @@ fn replay_one(beh: &[Value], dir: &std::path::Path, seed: u64, steps: &mut u64, 
             let Some(ks) = handles.get(n) else { continue };
             if let Some(d) = compare(&ch.expect, &observe(ks)) {
                 return Err((si, format!("keyspace {n:?} after {}: {d}", step["a"].as_str().unwrap_or(""))));
+            }
+        }
+        // the stored form (FjallOptions: StoredExact, NoDeadRows): the meta keyspace holds, for
+        // every live keyspace, exactly the rows of its configuration plus its name row, and
+        // nothing at all for any other id
+        let mut stored: BTreeMap<u64, std::collections::BTreeSet<String>> = BTreeMap::new();
+        for (k, _) in db.verif_meta_rows() {
+            if k.len() >= 9 && (k[0] == b'c' || k[0] == b'n') {
+                let id = u64::from_be_bytes(k[1..9].try_into().unwrap());
+                let name = if k[0] == b'n' { "<name>".to_string() } else { String::from_utf8_lossy(&k[9..]).to_string() };
+                stored.entry(id).or_default().insert(name);
+            }
+        }
+        let mut live_ids = std::collections::BTreeSet::new();
+        for (n, ch) in &created {
+            let Some(ks) = handles.get(n) else { continue };
+            live_ids.insert(ks.id());
+            let mut want = ch.rows.clone();
+            want.insert("<name>".into());
+            let got = stored.get(&ks.id()).cloned().unwrap_or_default();
+            if got != want {
+                let extra: Vec<&String> = got.difference(&want).collect();
+                let missing: Vec<&String> = want.difference(&got).collect();
+                return Err((si, format!("stored form of keyspace {n:?} (id {}) after {}: rows {extra:?} should not be there, rows {missing:?} are missing", ks.id(), step["a"].as_str().unwrap_or(""))));
+            }
+        }
+        if handles.len() == created.len() {
+            for (id, rows) in &stored {
+                if !live_ids.contains(id) {
+                    return Err((si, format!("the meta keyspace still holds rows {rows:?} of id {id}, which belongs to no live keyspace (after {})", step["a"].as_str().unwrap_or(""))));
+                }
+            }
+        }
+        // ids: the model's hand-out (never below 2 after a recovery, never one still referenced)
+        if let Some(ids) = step["ids"].as_object() {
+            for (n, want) in ids {
+                if let Some(ks) = handles.get(n) {
+                    if Some(ks.id()) != want.as_u64() {
+                        return Err((si, format!("keyspace {n:?} has id {}, the specification says {want}", ks.id())));
+                    }
+                }
             }
         }
     }
